@@ -3,7 +3,7 @@
 import sys, os, time, json, collections
 sys.path.insert(0, os.path.dirname(os.path.dirname(os.path.abspath(__file__))))
 from mirsmt import runner, catalog
-sel = [t for t in catalog.THOROUGH + catalog.QUICK if not sys.argv[1:] or t.name in sys.argv[1:]]
+sel = [t for t in catalog.THOROUGH + catalog.QUICK + catalog.MODEL + catalog.MODEL_THOROUGH if not sys.argv[1:] or t.name in sys.argv[1:]]
 t0 = time.time()
 res = runner.explore_all(sel, hash_orders=('ins',), budget_paths=20000, budget_s=3000)
 for k, v in sorted(res.items()): print(k, v['status'], v.get('reason', '')[:300], v['stats'].get('paths'), v['stats'].get('wall_s'), flush=True)
